@@ -17,6 +17,7 @@ import (
 	"fmt"
 	"math/rand"
 	"path/filepath"
+	"time"
 
 	"0chain.net/chaincore/block"
 	"0chain.net/chaincore/chain"
@@ -43,6 +44,10 @@ func (bsh) SaveMagicBlock() chain.MagicBlockSaveFunc { return nil }
 func (bsh) UpdatePendingBlock(ctx context.Context, b *block.Block, txns []datastore.Entity) {
 }
 func (bsh) UpdateFinalizedBlock(ctx context.Context, b *block.Block) error { return nil }
+
+type noVC struct{}
+
+func (noVC) ViewChange(ctx context.Context, lfb *block.Block) error { return nil }
 
 type fin struct {
 	round int64
@@ -77,6 +82,7 @@ func Run(a common.Args) {
 	defer rc.Close()
 	c := w.Chain
 	c.InitializeMinerPool(c.GetCurrentMagicBlock())
+	c.SetViewChanger(noVC{}) // finalizeRound's rollback branch calls the view changer
 	d := &drv{w: w, c: c, rc: rc, ctx: context.Background()}
 	for i := 0; i < 3; i++ {
 		d.keys = append(d.keys, util.Path(encryption.Hash(fmt.Sprintf("c27-key-%d", i))))
@@ -227,121 +233,232 @@ func (d *drv) check(v int64) (out []pair, total int64) {
 }
 
 func (d *drv) trace(id int, a common.Args) {
-	w, c := d.w, d.c
+	w := d.w
 	head := w.Head
 	d.base = head.Round
 	d.rc.TraceID = id - 1
-	d.rc.Reset(rec.M{"family": "pruning", "id": id, "seed": a.Seed, "steps": a.Steps}, rec.M{"nonces": w.InitNonces(head.ClientState), "round": 0})
-	vals := []string{"v1", "v2"}
+	if id%3 == 0 {
+		d.forkTrace(id, a)
+		return
+	}
+	d.rc.Reset(rec.M{"family": "pruning", "kind": "chain", "id": id, "seed": a.Seed, "steps": a.Steps}, rec.M{"nonces": w.InitNonces(head.ClientState), "round": 0})
 	nblocks := 2 + d.r.Intn(4)
 	for bi := 0; bi < nblocks; bi++ {
-		b := w.BeginBlock(w.Head)
-		// a block of 0..Steps writes; sometimes also a real transaction through Chain.UpdateState
-		var ops []string
-		n := d.r.Intn(a.Steps + 1)
-		for j := 0; j < n; j++ {
-			k := d.r.Intn(len(d.keys))
-			kind := []string{"ins", "ins", "del", "del", "delins"}[d.r.Intn(5)]
-			v := vals[d.r.Intn(len(vals))]
-			if d.r.Intn(3) == 0 {
-				v = "v1" // bias towards re-creating the identical value
-			}
-			res, err := d.op(kind, k, v)
-			if err != nil {
-				rec.Fatal("op %s k%d %s: %v", kind, k, v, err)
-			}
-			ops = append(ops, fmt.Sprintf("%s:k%d:%s:%s", kind, k, v, res))
-		}
-		if d.r.Intn(3) == 0 {
-			from := w.Clients[d.r.Intn(len(w.Clients))]
-			w.DoRec(d.rc, world.TxnSpec{From: from, To: w.Clients[d.r.Intn(len(w.Clients))].ID, Type: transaction.TxnTypeSend,
-				Value: uint64(1 + d.r.Intn(9)), Fee: uint64(d.r.Intn(2))}, rec.M{"src": "pruning"})
-		}
-		w.EndBlock()
-		b.SetStateChangesCount(b.ClientState)
-		synced := false
-		if b.StateChangesCount > 0 && d.r.Intn(5) == 0 {
-			// this node did not execute the block: it receives the block's published state changes
-			// (real NewBlockStateChange -> codec -> ApplyBlockStateChange) and finalizes the SYNCED
-			// copy, whose dead-node list is the one that came with the change set
-			if fb := d.syncedCopy(b); fb != nil {
-				b, synced = fb, true
-				w.Head = fb
-			}
-		}
-		r := round.NewRound(b.Round)
-		c.AddRound(r)
-		c.AddNotarizedBlockToRound(r, b)
-		changes, deletes := b.ClientState.GetChangeCount(), len(b.ClientState.GetDeletes())
-		_, chs, _, _ := b.ClientState.GetChanges()
-		for _, ch := range chs {
-			d.saved[ch.New.GetHash()] = ch.New.CloneNode()
-		}
-		mode, ferr := "finalizeBlock", ""
-		if synced {
-			mode = "finalizeBlock-synced"
-		}
-		if !synced && d.r.Intn(7) == 0 {
-			// crash between SaveChanges and the dead-node record: the changes are persisted, the
-			// record never is; the node restarts on this block as its LFB
-			mode = "saved-without-record"
-			if err := c.SaveChanges(d.ctx, b); err != nil {
-				ferr = err.Error()
-			}
-			r.Finalize(b)
-			c.SetLatestFinalizedBlock(b)
-		} else if err := c.VerifFinalizeBlock(d.ctx, b, bsh{}); err != nil {
-			ferr = err.Error()
-		}
-		lfb := c.GetLatestFinalizedBlock()
-		d.finals = append(d.finals, fin{b.Round, append(util.Key{}, b.ClientStateHash...)})
-		_, total := d.check(b.Round) // the block just finalized must be completely in the store
-		d.rc.Emit(rec.M{"ev": "Block", "round": d.rel(b.Round), "n_ops": len(ops), "ops": orEmpty(ops), "changes": changes, "deletes": deletes,
-			"mode": mode, "err": ferr, "is_lfb": lfb.Hash == b.Hash, "missing": total}, mode+"/"+opShape(ops), true)
-		if total > 0 {
-			d.heal(b.Round)
-		}
+		b, ops, synced := d.build(w.Head, 0, d.r.Intn(a.Steps+1), true)
+		d.finalize(b, ops, synced, true, "")
+		d.prune(b, b.Round)
+	}
+	d.closingPrune()
+}
 
-		// prune at some version up to the latest finalized round
-		switch x := d.r.Intn(10); {
-		case x < 5:
-			lo := d.pruned + 1
-			if lo < d.base+1 {
-				lo = d.base + 1
-			}
-			if lo > b.Round {
-				break
-			}
-			v := lo + int64(d.r.Intn(int(b.Round-lo+1)))
-			perr := ""
-			if err := c.GetStateDB().PruneBelowVersion(d.ctx, v); err != nil {
-				perr = err.Error()
-			}
-			if v > d.pruned {
-				d.pruned = v
-			}
-			d.emitPrune("direct", v, perr)
-		case x < 7:
-			// the chain's own choice of the version (pruneClientState): everything from
-			// lfb.Round - PruneStateBelowCount upwards is at or above whatever it chose
-			c.VerifPruneClientState(d.ctx)
-			v := lfb.Round - belowCount
-			if v < 0 {
-				v = 0
-			}
-			d.emitPrune("pruneClientState", v, "")
+// build makes a block of n writes (sometimes also a real transaction through Chain.UpdateState) on
+// top of `on`, generated by miner `miner`; one time in five (maySync) the block is not the executed
+// one but a copy synced from its published state changes.
+func (d *drv) build(on *block.Block, miner, n int, maySync bool) (*block.Block, []string, bool) {
+	w := d.w
+	vals := []string{"v1", "v2"}
+	b := w.BeginBlock(on)
+	b.MinerID = w.Miners[miner].ID
+	var ops []string
+	for j := 0; j < n; j++ {
+		k := d.r.Intn(len(d.keys))
+		kind := []string{"ins", "ins", "del", "del", "delins"}[d.r.Intn(5)]
+		v := vals[d.r.Intn(len(vals))]
+		if d.r.Intn(3) == 0 {
+			v = "v1" // bias towards re-creating the identical value
+		}
+		res, err := d.op(kind, k, v)
+		if err != nil {
+			rec.Fatal("op %s k%d %s: %v", kind, k, v, err)
+		}
+		ops = append(ops, fmt.Sprintf("%s:k%d:%s:%s", kind, k, v, res))
+	}
+	if d.r.Intn(3) == 0 {
+		from := w.Clients[d.r.Intn(len(w.Clients))]
+		w.DoRec(d.rc, world.TxnSpec{From: from, To: w.Clients[d.r.Intn(len(w.Clients))].ID, Type: transaction.TxnTypeSend,
+			Value: uint64(1 + d.r.Intn(9)), Fee: uint64(d.r.Intn(2))}, rec.M{"src": "pruning"})
+	}
+	w.EndBlock()
+	b.SetStateChangesCount(b.ClientState)
+	synced := false
+	if maySync && b.StateChangesCount > 0 && d.r.Intn(5) == 0 {
+		// this node did not execute the block: it receives the block's published state changes
+		// (real NewBlockStateChange -> codec -> ApplyBlockStateChange) and finalizes the SYNCED
+		// copy, whose dead-node list is the one that came with the change set
+		if fb := d.syncedCopy(b); fb != nil {
+			b, synced = fb, true
+			w.Head = fb
 		}
 	}
-	// close the trace with a prune at the last finalized round
-	last := w.Head.Round
+	r := d.c.GetRound(b.Round)
+	if r == nil {
+		r = d.c.AddRound(round.NewRound(b.Round))
+	}
+	d.c.AddNotarizedBlockToRound(r, b)
+	_, chs, _, _ := b.ClientState.GetChanges()
+	for _, ch := range chs {
+		d.saved[ch.New.GetHash()] = ch.New.CloneNode()
+	}
+	return b, ops, synced
+}
+
+// finalize runs the real finalizeBlock on b (one time in seven, when mayCrash: SaveChanges only)
+// and records the Block event with the walk of the block's own state.
+func (d *drv) finalize(b *block.Block, ops []string, synced, mayCrash bool, tag string) {
+	c := d.c
+	changes, deletes := b.ClientState.GetChangeCount(), len(b.ClientState.GetDeletes())
+	mode, ferr := "finalizeBlock", ""
+	if synced {
+		mode = "finalizeBlock-synced"
+	}
+	if !synced && mayCrash && d.r.Intn(7) == 0 {
+		// crash between SaveChanges and the dead-node record: the changes are persisted, the
+		// record never is; the node restarts on this block as its LFB
+		mode = "saved-without-record"
+		if err := c.SaveChanges(d.ctx, b); err != nil {
+			ferr = err.Error()
+		}
+		c.GetRound(b.Round).Finalize(b)
+		c.SetLatestFinalizedBlock(b)
+	} else if err := c.VerifFinalizeBlock(d.ctx, b, bsh{}); err != nil {
+		ferr = err.Error()
+	}
+	lfb := c.GetLatestFinalizedBlock()
+	d.finals = append(d.finals, fin{b.Round, append(util.Key{}, b.ClientStateHash...)})
+	_, total := d.check(b.Round) // the block just finalized must be completely in the store
+	d.rc.Emit(rec.M{"ev": "Block", "round": d.rel(b.Round), "n_ops": len(ops), "ops": orEmpty(ops), "changes": changes, "deletes": deletes,
+		"mode": mode, "err": ferr, "is_lfb": lfb.Hash == b.Hash, "missing": total, "fork": tag}, mode+"/"+opShape(ops)+tag, true)
+	if total > 0 {
+		d.heal(b.Round)
+	}
+}
+
+// prune: sometimes prune at some version up to maxV (<= the latest finalized round), directly or
+// with the chain's own choice of the version.
+func (d *drv) prune(b *block.Block, maxV int64) {
+	c := d.c
+	switch x := d.r.Intn(10); {
+	case x < 5:
+		lo := d.pruned + 1
+		if lo < d.base+1 {
+			lo = d.base + 1
+		}
+		if lo > maxV {
+			break
+		}
+		v := lo + int64(d.r.Intn(int(maxV-lo+1)))
+		perr := ""
+		if err := c.GetStateDB().PruneBelowVersion(d.ctx, v); err != nil {
+			perr = err.Error()
+		}
+		if v > d.pruned {
+			d.pruned = v
+		}
+		d.emitPrune("direct", v, perr)
+	case x < 7:
+		// the chain's own choice of the version (pruneClientState): everything from
+		// lfb.Round - PruneStateBelowCount upwards is at or above whatever it chose
+		lfb := c.GetLatestFinalizedBlock()
+		c.VerifPruneClientState(d.ctx)
+		v := lfb.Round - belowCount
+		if v < 0 {
+			v = 0
+		}
+		if v < d.pruned {
+			v = d.pruned // an earlier prune went higher: blocks below it are not retained any more
+		}
+		d.pruned = v
+		d.emitPrune("pruneClientState", v, "")
+	}
+}
+
+// closingPrune closes the trace with a prune at the last finalized round.
+func (d *drv) closingPrune() {
+	last := d.w.Head.Round
 	perr := ""
-	if err := c.GetStateDB().PruneBelowVersion(d.ctx, last); err != nil {
+	if err := d.c.GetStateDB().PruneBelowVersion(d.ctx, last); err != nil {
 		perr = err.Error()
 	}
 	if last > d.pruned {
 		d.pruned = last
 	}
 	d.emitPrune("direct", last, perr)
+}
+
+// forkTrace: the node finalizes one or two blocks of a fork A, then the blocks of a competing fork B
+// arrive (other generator), both forks have a notarized block in the same round, and the REAL
+// finalizeRound rolls the latest finalized block back to the common ancestor ("rolling back
+// finalized block").  Fork B wins: its blocks - which replace the abandoned ones at the SAME rounds,
+// with other writes, with the same writes or with none at all - are finalized by the real
+// finalizeBlock, the chain goes on, and the store is pruned at versions above the replaced rounds.
+// The retained blocks are the finalized blocks of the surviving chain.  Until the rollback nothing
+// is pruned above the common ancestor (the code prunes PruneStateBelowCount below the LFB; a
+// rollback below the pruned version is outside the property: the state it returns to is gone).
+func (d *drv) forkTrace(id int, a common.Args) {
+	w, c := d.w, d.c
+	d.rc.Reset(rec.M{"family": "pruning", "kind": "fork", "id": id, "seed": a.Seed, "steps": a.Steps}, rec.M{"nonces": w.InitNonces(w.Head.ClientState), "round": 0})
+	if d.r.Intn(2) == 0 { // the fork does not always start at the trace's first block
+		b, ops, synced := d.build(w.Head, 0, d.r.Intn(a.Steps+1), true)
+		d.finalize(b, ops, synced, true, "")
+		d.prune(b, b.Round)
+	}
+	anc := w.Head
+	ka := 1 + d.r.Intn(2) // finalized blocks of fork A (pruneClientState stays at or below the ancestor)
+	var tipA *block.Block
+	for i := 0; i <= ka; i++ {
+		b, ops, synced := d.build(w.Head, 0, 1+d.r.Intn(a.Steps), i < ka)
+		if i == ka {
+			tipA = b // notarized, never finalized
+			break
+		}
+		d.finalize(b, ops, synced, false, "/A")
+		d.prune(b, anc.Round)
+	}
+	// fork B: one block per round up to the round of A's tip, by the other generator
+	type built struct {
+		b      *block.Block
+		ops    []string
+		synced bool
+	}
+	var forkB []built
+	w.Head = anc
+	for q := anc.Round + 1; q <= tipA.Round; q++ {
+		n := 0
+		if d.r.Intn(2) == 0 {
+			n = d.r.Intn(a.Steps + 1)
+		}
+		b, ops, synced := d.build(w.Head, 1, n, false)
+		forkB = append(forkB, built{b, ops, synced})
+	}
+	plfb := c.GetLatestFinalizedBlock()
+	func() {
+		ctx, cancel := context.WithTimeout(d.ctx, 20*time.Second)
+		defer cancel()
+		c.VerifFinalizeRound(ctx, c.GetRound(tipA.Round))
+	}()
+	lfb := c.GetLatestFinalizedBlock()
+	// the abandoned blocks are not part of the finalized chain any more
+	keep := d.finals[:0:0]
+	for _, f := range d.finals {
+		if f.round <= lfb.Round {
+			keep = append(keep, f)
+		}
+	}
+	d.finals = keep
+	d.rc.Emit(rec.M{"ev": "Rollback", "from": d.rel(plfb.Round), "to": d.rel(lfb.Round), "anc": d.rel(anc.Round),
+		"ok": lfb.Hash == anc.Hash && plfb.Hash != anc.Hash}, fmt.Sprintf("rollback/%d", plfb.Round-lfb.Round), true)
+	// fork B wins
+	for _, x := range forkB {
+		w.Head = x.b
+		d.finalize(x.b, x.ops, x.synced, false, "/B")
+		d.prune(x.b, x.b.Round)
+	}
+	for i := d.r.Intn(3); i > 0; i-- {
+		b, ops, synced := d.build(w.Head, 0, d.r.Intn(a.Steps+1), true)
+		d.finalize(b, ops, synced, true, "")
+		d.prune(b, b.Round)
+	}
+	d.closingPrune()
 }
 
 // syncedCopy returns a copy of the executed block b whose state was obtained from b's published
